@@ -138,7 +138,7 @@ def _build_locked(variant, v, bdir, gen, obj, utils, t0):
     util_bins = {}
     if utils:
         us = src + '/utils'
-        ucf = '$(CFLAGS) -I%s/ncmpigen -I%s/ncmpidump' % (us, us)
+        ucf = '$(CFLAGS) -I%s/ncmpigen -I%s/ncmpidump -I%s/ncvalidator' % (us, us, us)
         U = {
             'ncvalidator': ([us + '/ncvalidator/ncvalidator.c'], False),
             'cdfdiff': ([us + '/ncmpidiff/cdfdiff.c'], False),
